@@ -88,6 +88,7 @@ Proof.
     rewrite subset_in in Hsub.
     destruct (IHp Hwf (map_env r1 m) (map_env r2 m) drop (map_env_agree _ _ _ _ Hm Hsub)) as [H1 H2].
     cbn [obs plays]. split; auto. rewrite !map_app, (obs_c_agree_a cs _ _ Hc), H1; auto.
+  - (* Ren *) cbn [pnames] in Hag. cbn [wf] in Hwf. cbn [obs plays]. apply IHp; auto.
 Qed.
 
 
